@@ -73,6 +73,14 @@ type tW struct {
 	C []tS   `thrift:"70"`
 }
 
+// tRW: recursive, with fields declared after (and ids below and above) the self-reference
+type tRW struct {
+	V    int64   `thrift:"3"`
+	Next *tRW    `thrift:"2"`
+	Tail string  `thrift:"5"`
+	Last []int32 `thrift:"1"`
+}
+
 type tR struct {
 	V    int64 `thrift:"1"`
 	Next *tR   `thrift:"2"`
@@ -591,6 +599,18 @@ func drivers() []driver {
 		}, 2, 3, func() []call {
 			return []call{protoMarshal("pCustom/w by value", valCustom("w")), protoMarshal("pCustomHolder", func() any { return pCustomHolder{pCustom{&pCustomData{[]byte("v")}}} })}
 		}},
+		{"thrift-recursive-first-use", func() [][]call {
+			// a recursive type with fields behind the self-reference, first used by value and through a pointer at once
+			valRW := func() any {
+				return tRW{V: 1, Next: &tRW{V: 2, Tail: "t2", Last: []int32{7}}, Tail: "t1", Last: []int32{8, 9}}
+			}
+			ptrRW := func() any { v := valRW().(tRW); return &v }
+			return [][]call{
+				{thriftMarshal("RW", false, valRW)},
+				{thriftMarshal("*RW", false, ptrRW)},
+				{thriftMarshal("*RW", true, ptrRW)},
+			}
+		}, 99, 99, nil},
 		{"mixed", func() [][]call {
 			return [][]call{
 				{jsonMarshal("C", valC), protoSize("M", valM)},
